@@ -1,18 +1,18 @@
 #!/bin/bash
-# Development helper: validates one seeded change (/tmp/seed/out/<ID>/<V>) and runs the checks against it.
-# usage: seedcheck.sh C07 A
+# Development helper: validates one seeded change (/tmp/seed/out/<ID>/<V>) and runs all checks against it
+# (on a scratch worktree with the change applied, via --repo).   usage: seedcheck.sh C07 A
 set -u
 ID=$1; V=$2
-SRC=/tmp/seed/out/$ID/$V
+SRC=${3:-/tmp/seed/out}/$ID/$V
 export GOFLAGS=-mod=mod GOPROXY=off GOSUMDB=off GOTOOLCHAIN=local
 unset GOWORK
 W=/tmp/seedv/$ID$V
 rm -rf $W; mkdir -p /tmp/seedv
+git -C /repo worktree prune
 git -C /repo worktree add -q --detach $W HEAD || exit 9
 cd $W
 echo "== $ID/$V: apply"; git apply $SRC/patch.diff || { echo APPLY-FAILED; git -C /repo worktree remove --force $W; exit 8; }
 echo "== build+suite with the change"; go build ./... && go test -count=1 ./... 2>&1 | tail -4
-# place the demo
 DEMO=$(ls $SRC/*_test.go 2>/dev/null | head -1)
 if [ -n "$DEMO" ]; then
   PKG=$(grep -m1 '^package ' $DEMO | awk '{print $2}')
@@ -23,17 +23,17 @@ if [ -n "$DEMO" ]; then
     *) D=. ;;
   esac
   cp $DEMO $D/zz_seed_demo_test.go
-  echo "== demo WITH change (expect FAIL) in $D"; (cd $D && go test -count=1 -run . . 2>&1 | tail -6)
-  git stash -q -- $(git diff --name-only) 2>/dev/null || git checkout -q -- .
-  git checkout -q -- . 2>/dev/null
-  echo "== demo WITHOUT change (expect ok)"; (cd $D && go test -count=1 -run . . 2>&1 | tail -3)
+  echo "== demo WITH change (expect FAIL) in $D"; (cd $D && go test -count=1 . 2>&1 | tail -5 | cut -c1-300)
+  git diff > /tmp/seedv/$ID$V.applied.diff
+  git checkout -q -- .
+  echo "== demo WITHOUT change (expect ok)"; (cd $D && go test -count=1 . 2>&1 | tail -3)
+  rm -f $D/zz_seed_demo_test.go
+  git apply /tmp/seedv/$ID$V.applied.diff
 else
   echo "(no *_test.go demo; see README)"; ls $SRC
 fi
 cd /verif
-git -C /repo worktree remove --force $W
 echo "== checks against the change"
-git -C /repo apply $SRC/patch.diff || { echo APPLY-TO-REPO-FAILED; exit 7; }
-./pqlcheck check all --no-evidence 2>&1 | grep -E "^== |^  violation|CHECKER-ERROR" | grep -vE "0 violated" | cut -c1-260
-git -C /repo checkout -- .
-git -C /repo status --short | head -3
+./pqlcheck check all --no-evidence --repo $W 2>&1 | grep -E "^== |^  violation|CHECKER-ERROR" | grep -vE " 0 violated" | cut -c1-330
+git -C /repo worktree remove --force $W
+rm -f /tmp/seedv/$ID$V.applied.diff
